@@ -16,7 +16,13 @@ Inductive c08case :=
 | CSys (stream : bool) (t0 t1 : Z) (md : list (bytes * bytes)) (remaining : option Z) (obs : option Z)
 (* a request whose header list was put on the wire by a scripted peer, served by
    a real server: the handler's remaining time at invocation *)
-| CSrv (stream : bool) (hdrs : list (bytes * bytes)) (obs : option Z).
+| CSrv (stream : bool) (hdrs : list (bytes * bytes)) (obs : option Z)
+(* the model regenerated from the Go source by tools/go2coq and the committed
+   equivalence proof coq/Gen/<Name>Equiv.v, re-checked by coqc on this run:
+   status 0 = proved equal to the hand-written model, 1 = the equivalence proof no
+   longer checks (the code says something else now), 2 = the source uses a
+   construct outside the translator's subset (tie broken, never skipped) *)
+| CGen (name : Z) (status : Z).
 
 Definition optZ_eqb (a b : option Z) : bool :=
   match a, b with
@@ -73,6 +79,7 @@ Definition spec_transfer_ok (timeout transit : Z) (obs : option Z) : bool :=
 
 Definition check (c : c08case) : list nat :=
   match c with
+  | CGen _ status => if Z.eqb status 0 then [] else [1%nat]
   | CParse s obs =>
       (if optZ_eqb (parse s) obs then [] else [1%nat]) ++
       (if spec_parse_ok s obs then [] else [2%nat])
